@@ -311,8 +311,12 @@ func Mul(a, b Term) Term { return app(SInt, "*", a, b) }
 // uninterpreted function with the axiom ix(o,i) = o+i, so that quantifier
 // triggers over element reads do not contain arithmetic.
 func IX(off, i Term) Term {
-	if off.S == "0" {
-		return i
+	// literal positions stay literals (stores through array pointers use
+	// them); everything else is an ix term so that patterns can mention it
+	if o, ok := isIntLit(off); ok {
+		if k, ok := isIntLit(i); ok && o < 1<<40 && k < 1<<40 {
+			return IntLit(o + k)
+		}
 	}
 	return app(SInt, "ix", off, i)
 }
@@ -920,13 +924,16 @@ const smtPrelude = `(set-option :produce-models true)
 (declare-fun sconcat (Str Str) Str)
 (declare-fun ssub (Str Int Int) Str)
 (declare-fun sbyte (Str Int) Int)
-(declare-fun sless (Str Str) Bool)
 (assert (forall ((a Str) (b Str)) (! (= (ssub (sconcat a b) 0 (slen a)) a) :pattern ((ssub (sconcat a b) 0 (slen a))))))
 (declare-fun sdrop (Str Int) Str)
+(declare-fun bytestr (Int) Str)
+(assert (forall ((c Int)) (! (and (= (slen (bytestr c)) 1) (= (sbyte (bytestr c) 0) c)) :pattern ((bytestr c)))))
 (assert (forall ((a Str) (b Str)) (! (and (= (sdrop (sconcat a b) (slen a)) b) (= (ssub (sconcat a b) 0 (slen a)) a) (= (slen (sconcat a b)) (+ (slen a) (slen b)))) :pattern ((sconcat a b)))))
 (assert (forall ((a Str)) (! (and (= (sconcat strEmpty a) a) (= (sconcat a strEmpty) a)) :pattern ((sconcat strEmpty a)) :pattern ((sconcat a strEmpty)))))
 (declare-fun ix (Int Int) Int)
 (assert (forall ((o Int) (i Int)) (! (= (ix o i) (+ o i)) :pattern ((ix o i)))))
+(declare-fun ixmark (Int) Bool)
+(assert (forall ((x Int)) (! (ixmark x) :pattern ((ixmark x)))))
 (assert (forall ((s Str)) (! (and (<= 0 (slen s)) (<= (slen s) 4611686018427387904) (= (= (slen s) 0) (= s strEmpty))) :pattern ((slen s)))))
 (define-fun wrap64 ((x Int)) Int (ite (and (<= (- 9223372036854775808) x) (<= x 9223372036854775807)) x (- (mod (+ x 9223372036854775808) 18446744073709551616) 9223372036854775808)))
 (define-fun wrapu64 ((x Int)) Int (ite (and (<= 0 x) (<= x 18446744073709551615)) x (mod x 18446744073709551616)))
